@@ -358,6 +358,15 @@ def on_type_with_overridden_serialization(
     elif callable(overridden_method):
         try:
             new_type = get_function_return_annotation(overridden_method)
+            if isinstance(new_type, ForwardRef):
+                # a return annotation written under postponed evaluation
+                new_type = evaluate_forward_ref(
+                    new_type,
+                    get_forward_ref_referencing_globals(
+                        new_type, overridden_method
+                    ),
+                    {},
+                )
             if new_type is instance.type:
                 return None
             else:
